@@ -7,12 +7,15 @@ pub mod c08;
 pub mod c09;
 pub mod c11;
 pub mod c12;
+pub mod c13;
+pub mod c14;
 pub mod lin;
 pub mod c15;
 pub mod c16;
 pub mod c17;
 pub mod c18;
 pub mod c19;
+pub mod c20;
 
 pub fn lookup(id: &str) -> Option<fn(&Run)> {
     Some(match id {
@@ -24,11 +27,14 @@ pub fn lookup(id: &str) -> Option<fn(&Run)> {
         "C09" => c09::run,
         "C11" => c11::run,
         "C12" => c12::run,
+        "C13" => c13::run,
+        "C14" => c14::run,
         "C15" => c15::run,
         "C16" => c16::run,
         "C17" => c17::run,
         "C18" => c18::run,
         "C19" => c19::run,
+        "C20" => c20::run,
         _ => return None,
     })
 }
